@@ -166,6 +166,11 @@ def run_plan(plan, oracle_factory, collect=None):
             except Exception as exc:  # noqa: BLE001 - everything the library raises is an observation
                 ctx.outcome = "raise"
                 ctx.exc = exc
+            except BaseException as exc:  # noqa: BLE001
+                if world.fired is None or not isinstance(exc, type(world.fired)):
+                    raise                       # a real interrupt of the harness, not an injected one
+                ctx.outcome = "raise"
+                ctx.exc = exc
             ctx.events = world.events
             if world.fired is not None:
                 result.setdefault("fired_ops", []).append(i)
